@@ -25,13 +25,13 @@ SAN = ("-fsanitize=address,undefined -fno-sanitize-recover=all -fno-omit-frame-p
 
 VARIANTS = {
     # name: (cxx, cc, cflags, ldflags)
-    "rel": ("g++", "gcc", "-O2 -g1", ""),
+    "rel": ("g++", "gcc", "-O3 -g1", ""),   # -O3 as the repository's CMake does ("Use -O3 instead of -O2")
     "asan": ("g++", "gcc", "-O1 -g " + SAN, "-fsanitize=address,undefined"),
     "tsan": ("g++", "gcc", "-O1 -g -fsanitize=thread", "-fsanitize=thread"),
-    "ssse3": ("g++", "gcc", "-O2 -g1 -mssse3 -DUSE_SSSE3", ""),
-    "avx2": ("g++", "gcc", "-O2 -g1 -mssse3 -mavx2 -DUSE_SSSE3 -DUSE_AVX2", ""),
+    "ssse3": ("g++", "gcc", "-O3 -g1 -mssse3 -DUSE_SSSE3", ""),
+    "avx2": ("g++", "gcc", "-O3 -g1 -mssse3 -mavx2 -DUSE_SSSE3 -DUSE_AVX2", ""),
     "avx512": ("g++", "gcc",
-               "-O2 -g1 -mssse3 -mavx2 -mavx512f -mavx512bw -mavx512vnni "
+               "-O3 -g1 -mssse3 -mavx2 -mavx512f -mavx512bw -mavx512vnni "
                "-DUSE_SSSE3 -DUSE_AVX2 -DUSE_AVX512", ""),
     "fuzz": ("clang++-14", "clang-14",
              "-O1 -g -fsanitize=fuzzer-no-link,address,undefined -fno-sanitize-recover=all "
